@@ -535,7 +535,11 @@ class PageTextTemplateFile(PageTemplateFile):
 
     def render(self, **vars: Any) -> bytes:  # type: ignore[override]
         result = super().render(**vars)
-        return result.encode(self.encoding or 'utf-8')
+        # Unless an encoding is configured, the text goes out in the
+        # encoding that the file was read with.
+        return result.encode(
+            self.encoding or self.content_encoding or 'utf-8'
+        )
 
 
 class Macro:
